@@ -20,6 +20,9 @@
 //   eol_lf/cr/crlf/cr_crlf   raw_string<'[','=',']'>          eager, that policy      len 0..8   len 0..10
 //   eolc_cr_crlf    raw_string<'[','=',']', not_one<'x'>>     eager, cr_crlf          len 0..8   len 0..10
 //   lazy            raw_string<'[','=',']'>                   lazy,  lf_crlf          len 0..8   len 0..10
+//   sqn / sqn_lazy  raw_string<'[','=',']', not_one<'\n'>>    eager / lazy, lf_crlf   len 0..8   len 0..10
+//   sqr_cr / sqr_cr_crlf  raw_string<'[','=',']', not_one<'\r'>>  eager, cr / cr_crlf  len 0..8   len 0..10
+//   sqc_lazy        raw_string<'[','=',']', not_one<'x'>>     lazy,  lf_crlf          len 0..8   len 0..10
 //   lvl             raw_string<'[','=',']'>                   eager, lf_crlf          levels 0..40 / 0..300:
 //                   {open(n), 3 broken openers} x 14 content templates x 7 tails  (see gen_levels)
 //
@@ -160,6 +163,9 @@ static Lit orc_raw( const std::string& s, char O, char M, char C, EolP pol, int 
 using RS_sq = pegtl::raw_string< '[', '=', ']' >;
 using RS_sqc = pegtl::raw_string< '[', '=', ']', pegtl::not_one< 'x' > >;
 using RS_ang = pegtl::raw_string< '<', '-', '>' >;
+// content rules that reject a line ending: a second line ending behind the opening bracket must reach them
+using RS_sqn = pegtl::raw_string< '[', '=', ']', pegtl::not_one< '\n' > >;
+using RS_sqr = pegtl::raw_string< '[', '=', ']', pegtl::not_one< '\r' > >;
 
 struct Probe
 {
@@ -192,6 +198,12 @@ struct probe_action< RS_sqc::content > : probe_apply
 {};
 template<>
 struct probe_action< RS_ang::content > : probe_apply
+{};
+template<>
+struct probe_action< RS_sqn::content > : probe_apply
+{};
+template<>
+struct probe_action< RS_sqr::content > : probe_apply
 {};
 
 // ---- guard page buffer: the input occupies the last n bytes before a PROT_NONE page ----------------
@@ -441,6 +453,11 @@ static std::vector< Cfg > configs()
    v.push_back( make_cfg< RS_sq, EIn< eol::cr_crlf > >( "eol_cr_crlf", '[', '=', ']', EolP::cr_crlf, -1, " [non-default eol]", 8, 10 ) );
    v.push_back( make_cfg< RS_sqc, EIn< eol::cr_crlf > >( "eolc_cr_crlf", '[', '=', ']', EolP::cr_crlf, 'x', " [non-default eol]", 8, 10 ) );
    v.push_back( make_cfg< RS_sq, LIn >( "lazy", '[', '=', ']', EolP::lf_crlf, -1, "", 8, 10 ) );
+   v.push_back( make_cfg< RS_sqn, EIn< eol::lf_crlf > >( "sqn", '[', '=', ']', EolP::lf_crlf, '\n', " [with Contents]", 8, 10 ) );
+   v.push_back( make_cfg< RS_sqr, EIn< eol::cr > >( "sqr_cr", '[', '=', ']', EolP::cr, '\r', " [with Contents]", 8, 10 ) );
+   v.push_back( make_cfg< RS_sqr, EIn< eol::cr_crlf > >( "sqr_cr_crlf", '[', '=', ']', EolP::cr_crlf, '\r', " [with Contents]", 8, 10 ) );
+   v.push_back( make_cfg< RS_sqn, LIn >( "sqn_lazy", '[', '=', ']', EolP::lf_crlf, '\n', " [with Contents]", 8, 10 ) );
+   v.push_back( make_cfg< RS_sqc, LIn >( "sqc_lazy", '[', '=', ']', EolP::lf_crlf, 'x', " [with Contents]", 8, 10 ) );
    v.push_back( make_cfg< RS_sq, EIn< eol::lf_crlf > >( "lvl", '[', '=', ']', EolP::lf_crlf, -1, "", 0, 0 ) );
    return v;
 }
